@@ -216,6 +216,13 @@ pub fn params(thorough: bool) -> Vec<(P, usize)> {
             ));
         }
     }
+    // a store that changes its mind between two questions about one batch
+    for (order, workers) in [(vec![0usize, 1, 2], 1usize), (vec![2, 0, 1], 2), (vec![1, 2, 0], 1)] {
+        v.push((
+            P { batches: 3, order, submitters: 2, workers, grouping: Grouping::FirstAskOnly, empty: None },
+            if thorough { 3 } else { 2 },
+        ));
+    }
     // one of the batches carries no write at all
     for (order, empty, workers, grouping) in [
         (vec![0, 1, 2], 0usize, 1usize, Grouping::Never),
